@@ -81,7 +81,7 @@ func GoClosures(f *ssa.Function) []*ssa.Function {
 func ReturnsNilConst(idx int) InstrPred {
 	return func(in ssa.Instruction) bool {
 		r, ok := in.(*ssa.Return)
-		if !ok || idx >= len(r.Results) {
+		if !ok || idx >= len(r.Results) || !IsReturn(in) {
 			return false
 		}
 
@@ -93,7 +93,7 @@ func ReturnsNilConst(idx int) InstrPred {
 func ReturnsNonNil(idx int) InstrPred {
 	return func(in ssa.Instruction) bool {
 		r, ok := in.(*ssa.Return)
-		if !ok || idx >= len(r.Results) {
+		if !ok || idx >= len(r.Results) || !IsReturn(in) {
 			return false
 		}
 
